@@ -108,6 +108,23 @@ Section TracerFacts2.
       rewrite !map_app, !map_map. cbn [fst snd]. rewrite Nat.sub_0_r.
       destruct (st_eqb x Solved); reflexivity.
     Qed.
+
+    (* reset=True on EVERY path (exceptions included): whatever the period's Trace held, after the call it holds exactly
+       ONE snapshot — the last one the run took — under the names of this call *)
+    Theorem trace_reset_every_path d o t s tr p :
+      truthy a = true ->
+      names_valid (vals_of s) t (names_of cfg (length (vals_of s)) a) ->
+      py_pos (length tr) t = Some p -> length tr = length (status s) ->
+      let R := traced_solve_t cfg a true ev before after d o t s tr in
+      exists lab res, nth p (snd (fst R)) empty_trace = mkTrace (names_of cfg (length (vals_of s)) a) [lab] [res].
+    Proof.
+      intros Ha Hv Hp Hlen. cbv zeta.
+      destruct (trace_every_path num sub absf ltb isfin zero cfg a true ev before after ev_shape before_shape after_shape
+                  d o t s tr p Ha Hv Hp Hlen (or_introl eq_refl)) as (l & Hri & Htr).
+      destruct l as [|e0 l0]; [inversion Hri|].
+      destruct (@exists_last _ (e0 :: l0)) as (l' & e & E); [discriminate|].
+      rewrite E in Htr. rewrite pushes_reset in Htr. exists (fst e), (snd e). exact Htr.
+    Qed.
   End Runs.
   (* ---------------------------------------------------------------- solve(start=, end=) and solve_period(label) *)
   Section SolveAllEntry.
